@@ -454,6 +454,39 @@ func runC10(c *Ctx, r *Report, tier string) {
 		r.Check(okC, "ORDER", name, "order-preserving copy of Command.args", c.pos(fn.Pos()), "copy(make([]*Arg, len(c.args)), c.args)", "the positional list is not copied in order")
 	}
 
+	// the declared list is never written in place by anybody else (an in-place filter or sort of c.args reorders the positionals)
+	{
+		scanH := c.Fn("(*Command).scanSubcommandHandler$1")
+		nW := 0
+		for _, fn := range c.Funcs {
+			for _, b := range fn.Blocks {
+				for _, in := range b.Instrs {
+					var base ssa.Value
+					what := ""
+					switch v := in.(type) {
+					case *ssa.Call:
+						if bi, ok := v.Call.Value.(*ssa.Builtin); ok && bi.Name() == "append" {
+							base, what = v.Call.Args[0], "append onto"
+						} else if c.calleeName(&v.Call) == "sort.Slice" || c.calleeName(&v.Call) == "sort.SliceStable" {
+							base, what = v.Call.Args[0], "sort of"
+						} else if bi, ok := v.Call.Value.(*ssa.Builtin); ok && bi.Name() == "copy" {
+							base, what = v.Call.Args[0], "copy into"
+						}
+					case *ssa.Store:
+						if ia, ok := v.Addr.(*ssa.IndexAddr); ok {
+							base, what = ia.X, "element store into"
+						}
+					}
+					if base == nil || !aliasesField(c, base, "Command.args(", map[ssa.Value]bool{}) {
+						continue
+					}
+					nW++
+					r.Check(scanH != nil && c.actsFor(fn, scanH), "ORDER", c.fname(fn), "in-place write of the declared positional list", c.ipos(in), "only the positional scan appends to Command.args", what+" "+trunc(c.term(base), 80)+" in "+c.fname(fn)+": the backing array of Command.args is overwritten, so positionals are rebound or reordered")
+				}
+			}
+		}
+		r.Check(nW >= 1, "ORDER", "package", "writers of Command.args found", "", "≥ 1 (the scan's append)", fmt.Sprintf("%d", nW))
+	}
 	c.addArgsSkeleton(r, "FILL")
 
 	// BEFORE-COMMANDS
@@ -527,4 +560,29 @@ func runC10(c *Ctx, r *Report, tier string) {
 		}
 	}
 	r.Check(len(bad) == 0, "UNDISTURBED", c.fname(aa), "R(addArgs) has no option-syntax test", c.pos(aa.Pos()), fmt.Sprintf("%d functions reachable, none tests option syntax: after `--` option-looking tokens bind as positionals", len(set)), "addArgs reaches "+strings.Join(bad, ", "))
+}
+
+// aliasesField: v is (a slice of, or a phi over slices of) a load of the field whose term starts with prefix:
+// writing through it writes the field's backing array.
+func aliasesField(c *Ctx, v ssa.Value, prefix string, seen map[ssa.Value]bool) bool {
+	if seen[v] {
+		return false
+	}
+	seen[v] = true
+	switch x := v.(type) {
+	case *ssa.Slice:
+		return aliasesField(c, x.X, prefix, seen)
+	case *ssa.Phi:
+		for _, e := range x.Edges {
+			if aliasesField(c, e, prefix, seen) {
+				return true
+			}
+		}
+		return false
+	case *ssa.Call:
+		if bi, ok := x.Call.Value.(*ssa.Builtin); ok && bi.Name() == "append" {
+			return aliasesField(c, x.Call.Args[0], prefix, seen)
+		}
+	}
+	return strings.HasPrefix(c.term(v), prefix)
 }
